@@ -629,9 +629,36 @@ def run_temperatures(acc, mode):
                         same_ = o[0] == ref[0] and (o[0] != "ok" or (dict(o[1]._units) == dict(ref[1]._units) and (o[1].magnitude == ref[1].magnitude if mode == "Fraction" else abs(float(o[1].magnitude) - float(ref[1].magnitude)) <= 1e-9 * abs(float(ref[1].magnitude)))))
                         if not same_:
                             acc.violation(["covariance", op, "temperature-scales", "product-depends-on-the-scale-used", mode], {"mode": mode, "temperature": list(sa), "reference": list(outs[0][0]), "partner": list(partner), "order": order}, show(ref), show(o))
+    # an operand whose units COMBINE an offset unit with other units, or carry it at a power other than 1 (built from
+    # Unit objects: degC / minute), is refused by * and / with the same kind of error whatever units the OTHER operand is
+    # expressed in, in either order, also against a bare number on the left of /, in the default and the autoconvert registry
+    import operator as _o
+
+    for creg, cname in ((regs.default(lm), "default"), (areg, "autoconvert")):
+        CQ = creg.Quantity
+        compounds = [{"degC": 1, "minute": -1}, {"degC": 1, "meter": 1}, {"degF": 1, "second": -1}, {"degC": 2}, {"degC": -1}, {"degC": 1, "degF": 1}]
+        partner_groups = [[("10", "minute"), ("600", "second"), ("1/6", "hour")], [("3", "meter"), ("300", "centimeter")], [("2", ""), ("200", "percent")]]
+        for cu in compounds:
+            for group in partner_groups:
+                for (opn, op), order in itertools.product((("*", _o.mul), ("/", _o.truediv)), ("c.x", "x.c")):
+                    outs = []
+                    for pm, pu in group:
+                        acc.ev()
+                        acc.nt(("compound-offset", mode, cname, tuple(cu.items()), opn, order, pm, pu))
+                        c = CQ(parse_num("5", lm), creg.UnitsContainer(cu))
+                        x = mk_leaf(creg, lm, (pm, pu))
+                        outs.append(((pm, pu), run_op(lambda: op(c, x) if order == "c.x" else op(x, c))))
+                    for (pmu, o) in outs:
+                        if o != ("exc", "OffsetUnitCalculusError"):
+                            acc.violation(["offset-compound", opn, "offset-unit-inside-a-compound-operand", "ambiguous-product-not-refused", cname], {"mode": mode, "registry": cname, "operand_units": {k: str(v) for k, v in cu.items()}, "partner": list(pmu), "order": order}, "OffsetUnitCalculusError", show(o))
+                            break
+            acc.ev()
+            c = CQ(parse_num("5", lm), creg.UnitsContainer(cu))
+            o = run_op(lambda: 2 / c)
+            if o != ("exc", "OffsetUnitCalculusError"):
+                acc.violation(["offset-compound", "/", "offset-unit-inside-a-compound-operand", "ambiguous-product-not-refused", cname], {"mode": mode, "registry": cname, "operand_units": {k: str(v) for k, v in cu.items()}, "partner": ["2", "bare number"], "order": "x.c"}, "OffsetUnitCalculusError", show(o))
     # an operand that was rescaled IN PLACE (also across dimensions, through a context) behaves in every operator
     # like a new quantity with the same magnitude and units
-    import operator as _o
 
     preg = regs.default("Fraction" if mode == "Fraction" else "float")
     PQ = preg.Quantity
@@ -713,7 +740,7 @@ def replay(rec):
     tree = case.get("tree", [])
     if site[2].endswith("+auto-reduce"):
         run_autoreduce(acc)
-    elif site[2] == "temperature-scales":
+    elif site[2] == "temperature-scales" or site[0] in ("offset-compound", "inplace-consistency") and site[2] in ("offset-unit-inside-a-compound-operand", "after-in-place-rescale"):
         run_temperatures(acc, mode)
     elif site[2] == "depth2":
         run_d2(acc, mode, rec.get("tier", "quick"))
